@@ -241,9 +241,26 @@ func Workflow(name string, hooks []HookSpec) string {
 				fmt.Fprintf(&sb, "      return: %q\n", h.Return)
 			}
 		}
-		fmt.Fprintf(&sb, "      trigger: %q\n", h.Trigger)
-		if h.Await != "" {
-			fmt.Fprintf(&sb, "      await: %q\n", h.Await)
+		// trigger and await are template fields of a call role: every third call role spells one of them as a
+		// template expression (a string literal), which means the same as the plain text
+		trig, aw := h.Trigger, h.Await
+		if h.Kind != Task && !strings.ContainsAny(trig+aw, "'{") {
+			sum := 0
+			for _, b := range []byte(h.Name) {
+				sum += int(b)
+			}
+			switch sum % 3 {
+			case 1:
+				if aw != "" {
+					aw = "{{ '" + aw + "' }}"
+				}
+			case 2:
+				trig = "{{ '" + trig + "' }}"
+			}
+		}
+		fmt.Fprintf(&sb, "      trigger: %q\n", trig)
+		if aw != "" {
+			fmt.Fprintf(&sb, "      await: %q\n", aw)
 		}
 		to := h.Timeout
 		if to == "" {
